@@ -1,13 +1,15 @@
-(* C07: property theorems.  Statements only; every proof is `exact` of a lemma in Proofs/. *)
+(* C07 -- H-Revolve family schedules achieve their cost optimum for any cost vector
+   Property theorems only: each proof is one application of a lemma proved in Proofs/, followed by Print Assumptions. *)
 From Coq Require Import ZArith List Bool.
 From CS Require RevCost.
+From CS Require Import Actions NAdvance Multistage Exec Sched RunFacts Projections BasicInv MultistageRun TLBridge.
 Import ListNotations.
 Open Scope Z_scope.
 
-(* forward work of revolve = (l+1) + step-count DP, independent of uf, ub (table correctness as hypothesis) *)
-Module M_C07_revolve_work.
+(* PARTIAL: Revolve only; table correctness as hypothesis; DiskRevolve/Periodic/HRevolve cost theorems not proved (oracle + correspondence only) *)
+Module M_C07_revolve_work_partial.
 Import RevCost.
-Theorem C07_revolve_work :
+Theorem C07_revolve_work_partial :
   forall uf ub : Z,
          0 < uf ->
          forall (opt0 : list (list Z)) (M L : Z) (P : Z -> Z -> Z),
@@ -24,8 +26,8 @@ Theorem C07_revolve_work :
          RevGen.revolve fuel opt0 uf l cm = RevGen.GOk ops ->
          0 <= l <= L -> 0 <= cm <= M -> (1 <= l -> 1 <= cm) -> work ops = l + 1 + P cm l.
 Proof. exact (@RevCost.revolve_work). Qed.
-Print Assumptions C07_revolve_work.
-End M_C07_revolve_work.
+Print Assumptions C07_revolve_work_partial.
+End M_C07_revolve_work_partial.
 
 (* the split chosen is a minimiser *)
 Module M_C07_argmin_min.
